@@ -299,15 +299,21 @@ def run_c02_fit(rec, tier, seed):
         fluxes = _grid(rng, M, n, D)
         dist = np.sort(10. ** rng.uniform(-1, 1, D))
         lo, hi = _av_range(rng, t % 3)
-        case = _case(seed, 'c02fit', fluxes=fluxes, k=k, wav=wav, dist=dist, valid=src.valid, flux=src.flux, error=src.error, lo=lo, hi=hi)
-        models = make_models_3d(['m%03d' % i for i in range(M)], fluxes, wav, dist)
+        # every second case: the object has already fitted one or two other sources (a fitter is used for a whole
+        # data file; the statement is about every fit, not the first one)
+        prior = []
+        if t % 2:
+            for _ in range(1 + t % 3 % 2):
+                o = random_source(rng, n, flags)
+                prior.append(dict(valid=o.valid, flux=o.flux, error=o.error))
+        case = _case(seed, 'c02fit', fluxes=fluxes, k=k, wav=wav, dist=dist, valid=src.valid, flux=src.flux, error=src.error, lo=lo, hi=hi, prior=prior)
         try:
-            info = models.fit(src, k.copy(), -2. * np.ones(n), lo, hi)
+            models, _fl, _k, _src, info = _fit3d_from_case(case)
         except Exception as e:
             rec.fail('crash', 'Models.fit raised %s: %s' % (type(e).__name__, e), case)
             continue
         check_fit_3d(rec, case, models, fluxes, np.log10(dist), k, src, lo, hi, info)
-        rec.case(key=('fit3d', tuple(int(x) for x in flags), D, t % 3),
+        rec.case(key=('fit3d', tuple(int(x) for x in flags), D, t % 3, len(prior)),
                  sample=dict(flags=[int(x) for x in flags], n_dist=D, av_range=[lo, hi], best_sc=float(info.sc[0])) if t < 2 else None)
     return {'c02fit': replay_3d}
 
@@ -469,8 +475,8 @@ def run_c03(tier, seed):
 # ---------------------------------------------------------------------------
 
 def run_c04(tier, seed):
-    rec = Recorder('C04', 'random sources x grids containing exactly tied models and models with chi2 >= 1e30 (confidence-1 limit '
-                          'violated), both modes; every row checked against the model named by model_id; distinct = (mode, flags, ties)')
+    rec = Recorder('C04', 'random sources x grids containing exactly tied models, models with chi2 >= 1e30 (confidence-1 limit '
+                          'violated) and models with INFINITE chi2 (rejected as resolved at every distance, placed before finite ones), both modes; every row checked against the model named by model_id; distinct = (mode, flags, ties)')
     rng = np.random.default_rng(seed + 4)
     n_cases = 80 if tier == 'quick' else 2000
     for t in range(n_cases):
@@ -494,13 +500,56 @@ def run_c04(tier, seed):
             check_fit_2d(rec, case, m, fluxes, k, src, lo, hi, info)
         else:
             check_fit_3d(rec, case, m, fluxes, np.log10(dist), k, src, lo, hi, info)
+        # models with INFINITE chi^2 (rejected as resolved at every distance), placed before finite ones in grid order:
+        # every model still listed exactly once, finite rows as without the mask, infinite rows last, rows consistent
+        if mode == '3d' and t % 2 == 0 and M >= 3:
+            ext = np.zeros((M, D, n), dtype=bool)
+            rej = sorted(rng.choice(M - 1, size=int(rng.integers(1, min(3, M - 1) + 1)), replace=False).tolist())    # never only the last model
+            for r_ in rej:
+                ext[r_, :, :] = True
+            case_e = dict(case, extended=jsonable(ext))
+            try:
+                _, info_e = _fit_any(mode, fluxes, wav, dist, k, src, lo, hi, extended=ext)
+                ids_e = [int(x) for x in np.asarray(info_e.model_id)]
+                ch_e = np.asarray(info_e.chi2, dtype=float)
+                ok_e = sorted(ids_e) == list(range(M))
+                ok_e = ok_e and all(np.isinf(ch_e[ids_e.index(r_)]) for r_ in rej) and int(np.sum(np.isinf(ch_e))) >= len(rej)
+                fin = [i for i in range(M) if i not in rej]
+                ref = dict((int(i_), (float(a_), float(s_), float(c_), str(nm_))) for i_, a_, s_, c_, nm_ in zip(info.model_id, info.av, info.sc, info.chi2, info.model_name))
+                for pos, i_ in enumerate(ids_e):
+                    row = (float(info_e.av[pos]), float(info_e.sc[pos]), float(ch_e[pos]), str(info_e.model_name[pos]))
+                    if i_ in fin:
+                        ok_e = ok_e and row[3] == ref[i_][3] and close(row[:3], ref[i_][:3], 1e-12, 1e-12)
+                    else:
+                        ok_e = ok_e and row[3] == ref[i_][3]
+                fin_ch = ch_e[np.isfinite(ch_e)]
+                ok_e = ok_e and bool(np.all(np.diff(fin_ch) >= 0)) and bool(np.all(np.isfinite(ch_e[:len(fin_ch)])))
+                rec.expect(ok_e, 'infinite_rows', 'with models %s rejected (infinite chi2) the result does not list every model once, in order, with consistent rows: ids %s chi2 %s'
+                           % (rej, ids_e, [float(x) for x in ch_e]), case_e)
+            except Exception as e:
+                rec.fail('crash', 'fit with rejected models raised %s: %s' % (type(e).__name__, e), case_e)
         # tied models both present, adjacent ranks
         ids = list(np.asarray(info.model_id))
         rec.expect(abs(ids.index(0) - ids.index(1)) == 1 or float(info.chi2[ids.index(0)]) == float(info.chi2[ids.index(1)]), 'ties_kept',
                    'identical models 0 and 1 do not have identical chi2', case)
         rec.case(key=(mode, tuple(int(x) for x in flags), t % 3), nontrivial=True,
                  sample=dict(mode=mode, flags=[int(x) for x in flags], chi2=jsonable(np.asarray(info.chi2)[:4])) if t < 3 else None)
-    return rec, {'c04': c04_replay}
+    # through real packages: the reported scale is log10 of the best distance in kpc -- whatever unit the distance range is
+    # given in -- and the stored fluxes follow from it (the package-level oracle of C02, both formats)
+    from . import pipe_props
+    for t in range(6 if tier == 'quick' else 60):
+        dmin = float(10. ** rng.uniform(-0.5, 0.3))
+        n_f = int(rng.integers(2, 4))
+        case = dict(seed=seed, tag='c02-pkg', pseed=int(rng.integers(1, 10 ** 6)), n_models=int(rng.integers(2, 6)), n_ap=int(rng.integers(2, 6)), n_f=n_f,
+                    step=float(rng.choice([0.05, 0.1])), dmin=dmin, dmax=float(dmin * 10. ** rng.uniform(0.2, 0.9)),
+                    theta=[float(10. ** rng.uniform(1.8, 2.5) / (dmin * 1000.)) * 10. for _ in range(n_f)], version=1 + t % 2, memmap=False, increasing=True,
+                    lo=0., hi=float(rng.uniform(2, 10)), flags=[1] * n_f, exact=False, range_unit=['pc', 'kpc', 'Mpc'][t % 3])
+        try:
+            pipe_props.c02_pkg(rec, case)
+        except Exception as e:
+            rec.fail('c04_pkg_crash', 'raised %s: %s' % (type(e).__name__, e), case)
+        rec.case(key=('pkg', case['version'], case['range_unit']), nontrivial=True)
+    return rec, {'c04': c04_replay, 'c02-pkg': pipe_props.c02_pkg}
 
 
 def c04_replay(rec, case):
@@ -509,6 +558,22 @@ def c04_replay(rec, case):
     fluxes, k = np.array(c['fluxes']), np.array(c['k'])
     dist = np.array(c['dist']) if c.get('dist') is not None else None
     m, info = _fit_any(c['mode'], fluxes, np.array(c['wav']), dist, k, src, c['lo'], c['hi'])
+    if c.get('extended') is not None:
+        ext = np.array(c['extended'], dtype=bool)
+        M = fluxes.shape[0]
+        rej = [i for i in range(M) if ext[i].all()]
+        _, info_e = _fit_any(c['mode'], fluxes, np.array(c['wav']), dist, k, src, c['lo'], c['hi'], extended=ext)
+        ids_e = [int(x) for x in np.asarray(info_e.model_id)]
+        ch_e = np.asarray(info_e.chi2, dtype=float)
+        fin_ch = ch_e[np.isfinite(ch_e)]
+        ref = dict((int(i_), (float(a_), float(s_), float(c_))) for i_, a_, s_, c_ in zip(info.model_id, info.av, info.sc, info.chi2))
+        ok_e = sorted(ids_e) == list(range(M)) and bool(np.all(np.diff(fin_ch) >= 0)) and bool(np.all(np.isfinite(ch_e[:len(fin_ch)])))
+        for pos, i_ in enumerate(ids_e):
+            if i_ in rej:
+                ok_e = ok_e and bool(np.isinf(ch_e[pos]))
+            else:
+                ok_e = ok_e and close((float(info_e.av[pos]), float(info_e.sc[pos]), float(ch_e[pos])), ref[i_], 1e-12, 1e-12)
+        return rec.expect(ok_e, 'infinite_rows', 'with models %s rejected the result does not list every model once, in order, with consistent rows' % rej, case)
     if c['mode'] == '2d':
         return check_fit_2d(rec, case, m, fluxes, k, src, c['lo'], c['hi'], info)
     return check_fit_3d(rec, case, m, fluxes, np.log10(dist), k, src, c['lo'], c['hi'], info)
